@@ -421,7 +421,7 @@ def _cumulative_accumulator(state, new, op=None):
         df = df_package.concat([state, new])  # ouch, full copy
 
     result = getattr(df, op)()
-    new_state = result.iloc[-1:]
+    new_state = result.ffill().iloc[-1:]
     if len(state):
         result = result[1:]
     return new_state, result
